@@ -201,13 +201,25 @@ def symValJ : SymVal → Json
   | .num v => .arr #[.str "num", natJ v]
   | .fn f => .arr #[.str "fn", .str f.fnName, natJ f.expr, strsJ f.args]
 
+/-- {"called": [[exprId, [names]]..]}: the names each printed body calls (absent: none) -/
+def calledOf (j : Json) : Except String (ExprId → List String) := do
+  match j.getObjVal? "called" with
+  | .ok cj => do
+      let tbl ← (← jArr cj).mapM fun e => do
+        match ← jArr e with
+        | [i, ns] => pure ((← jNat i), (← jList jStr ns))
+        | _ => .error "bad called entry"
+      pure fun e => (tbl.lookup e).getD []
+  | .error _ => pure fun _ => []
+
 def handleSym (j : Json) : Except String Json := do
   pure (moduleJ (genModule (← jSymRepr j)))
 
 def handlePModel (j : Json) : Except String Json := do
   let s := importSym (← jPModel j)
   let qs := fun (l : List (String × SymQty)) => Json.arr (l.map fun kv => Json.arr #[.str kv.1, symValJ kv.2.value]).toArray
-  match moduleJ (genModule s) with
+  let called ← calledOf j
+  match moduleJ ((genModule s).map (·.renameParams called)) with
   | .obj kvs => pure (Json.obj (kvs.insert "sym" (Json.mkObj [("variables", qs s.variables), ("parameters", qs s.parameters)])))
   | other => pure other
 
